@@ -166,6 +166,11 @@ static void install_guard(void) {
 
 /* re-pointing: a service that was configured with another URI before; the final configuration must decide alone */
 static int g_prior;
+/* part "after-bad-first": the service is first offered a URI it refuses, then the URI under test */
+static int g_bad_first;
+static const char *BAD_FIRST[] = {NULL, "ksi+tcp://other.example.test", "ksi+tcp://other.example.test:0", "file:///verif-nonexistent/x.bin", "gopher://other.example.test/x", "ksi+tcp://", "ksi+tcp://other.example.test:70000"};
+#define NBADFIRST 7
+static int g_bad_first_refused;
 static const char *PRIOR_URI[] = {NULL, "ksi+tcp://prior.example.test:3333", "file:///verif-nonexistent/prior.bin", "http://prior.example.test/p", "ksi://pu:pk@prior.example.test:81/q"};
 #define NPRIOR 5
 
@@ -214,6 +219,10 @@ static void exec_service(const ccase *c) {
 			res = c->v == SV_ASYNC_SIGN ? KSI_SigningAsyncService_new(ctx, &as) : KSI_ExtendingAsyncService_new(ctx, &as);
 			if (res != KSI_OK) vf_harness_error("async service constructor failed 0x%x", res);
 			if (g_prior) KSI_AsyncService_setEndpoint(as, PRIOR_URI[g_prior], "prior-user", "prior-key");
+			if (g_bad_first) {
+				g_bad_first_refused = KSI_AsyncService_setEndpoint(as, BAD_FIRST[g_bad_first], "u-first", "k-first") != KSI_OK;
+				if (!g_bad_first_refused) break;       /* taken: the service has its endpoint, a second one is refused by design */
+			}
 			CALL(set, "KSI_AsyncService_setEndpoint", KSI_AsyncService_setEndpoint(as, c->uri, xid, xkey));
 			if (O.set_res != KSI_OK) break;
 			if (c->v == SV_ASYNC_SIGN) {
@@ -731,6 +740,26 @@ static void run(void) {
 			}
 		}
 	}
+	/* (2b) the asynchronous service is first offered a URI it refuses (no port, port 0 / out of range, file, unknown scheme, no host),
+	 * then the URI under test: a refused call leaves the service as it was, so the expectations are those of a first configuration */
+	memset(&c, 0, sizeof c);
+	for (g_bad_first = 1; g_bad_first < NBADFIRST; g_bad_first++)
+	for (c.b = 0; c.b < NSCH; c.b++)
+	for (c.u = 0; c.u < 2; c.u++)
+	for (c.x = 0; c.x < 2; c.x++)
+	for (c.v = SV_ASYNC_SIGN; c.v <= SV_ASYNC_EXT; c.v++) {
+		int crashed;
+		c.mask = 0; c.h = 0; c.a = 2; c.q = 0; c.f = 0; c.p = 2;
+		if (!vf_case_begin("after-bad-first:b%d:s%d:u%d:x%d:v%d", g_bad_first, c.b, c.u, c.x, c.v)) continue;
+		compose(&c);
+		reset_seam();
+		g_bad_first_refused = 0;
+		run_guarded(exec_service, &c, &crashed);
+		if (!crashed && !g_bad_first_refused) vf_outcome("after-bad-first:first-uri-accepted");
+		else { evaluate(&c, crashed); vf_outcome("after-bad-first:done"); }
+		vf_case_end(1);
+	}
+	g_bad_first = 0;
 	/* (3) re-pointing: every service first configured with a URI of each transport kind, then with the URI under test
 	 * (one spelling per scheme, with and without embedded / explicit credentials): same expectations as a first configuration */
 	memset(&c, 0, sizeof c);
